@@ -20,7 +20,7 @@ ASSUMPTIONS = ["the exact successor of a multi-switch write is left open (only t
                "bulk selection of several switches under OneOfMany/AtMostOne must keep the invariants and must not raise"]
 QUICK_SHARDS = 2
 REQUIRED_EVENTS = ["states", "transitions", "published_updates_judged", "client_writes", "driver_assignments", "bulk_selections",
-                   "client_writes_with_injected_fault", "client_writes_prevented_by_a_write_handler", "writes_in_a_foreign_spelling", "transitions_with_hidden_switches", "state_graphs_with_nested_element_names"]
+                   "client_writes_with_injected_fault", "client_writes_prevented_by_a_write_handler", "writes_in_a_foreign_spelling", "transitions_with_hidden_switches", "state_graphs_with_nested_element_names", "hardware_selector_moves", "initial_configurations_declared_on_the_elements"]
 EXHAUSTIVE_NOTE = "the complete reachable state graph for every rule, 1..5 switches (thorough: 1..7) and every initial configuration, every operation on every node"
 SHARDED = True
 RULES = ["OneOfMany", "AtMostOne", "AnyOfMany"]
@@ -37,8 +37,8 @@ def N(i):
     return _NAMES[0][i]
 
 
-def make_spec(rule, n, default_on):
-    els = [{"attr": f"s{i}", "name": N(i), "label": None, "default": None, "enabled": True} for i in range(n)]
+def make_spec(rule, n, default_on, element_defaults=()):
+    els = [{"attr": f"s{i}", "name": N(i), "label": None, "default": ("On" if N(i) in element_defaults else None), "enabled": True} for i in range(n)]
     vec = {"attr": "sw", "kind": "Switch", "name": "SW", "label": None, "state": None, "perm": None, "timeout": None, "enabled": True,
            "rule": rule, "default_on": default_on, "elements": els}
     return {"name": "DEV", "levels": [{"groups": [{"attr": "g", "name": "G", "enabled": True, "vectors": [vec]}]}]}
@@ -108,12 +108,17 @@ def apply_op(router, rec, drv, vec, n, op):
         vec.selected_values = [N(i) for i in op[1]]
 
 
-def explore(ctx, rule, n, init, explored=None):
+def explore(ctx, rule, n, init, explored=None, via_element_defaults=False):
     from indi.routing import Router
     default_on = [N(i) for i, b in enumerate(init) if b]
     if rule != "AnyOfMany":
         default_on = default_on[0] if default_on else None
-    spec = make_spec(rule, n, default_on or None)
+    if via_element_defaults:
+        # the initial selection is declared on the ELEMENTS (Switch(..., default="On")), the vector gets no default_on
+        spec = make_spec(rule, n, None, element_defaults=[N(i) for i, b in enumerate(init) if b])
+        ctx.count("initial_configurations_declared_on_the_elements")
+    else:
+        spec = make_spec(rule, n, default_on or None)
     router = Router()
     faults = {"change": False, "delivery": False, "veto": False}
 
@@ -144,9 +149,14 @@ def explore(ctx, rule, n, init, explored=None):
     router.register_client(rec)
     vec = D.vector_of(drv, "g", "sw")
     start = read_state(vec, n)
-    cfg = {"rule": rule, "n": n, "init": list(init), "nested_names": {id(NESTED_NAMES): 1, id(NESTED_NAMES_REV): 2}.get(id(_NAMES[0]), 0)}
+    cfg = {"rule": rule, "n": n, "init": list(init), "via_element_defaults": via_element_defaults, "nested_names": {id(NESTED_NAMES): 1, id(NESTED_NAMES_REV): 2}.get(id(_NAMES[0]), 0)}
+    if rule == "OneOfMany" and not any(init) and sum(start) == 1:
+        # nothing was declared On: a library that then selects one switch itself satisfies the rule just as well as one that
+        # leaves all of them Off - explore from where it starts
+        init = start
     if start != tuple(init):
-        ctx.violate("default_on-not-honoured", f"initial configuration {init} gives state {start}", cfg)
+        ctx.violate("default_on-not-honoured" if not via_element_defaults else "element-defaults-not-honoured-or-rule-broken-at-start",
+                    f"initial configuration {init} gives state {start}", cfg)
         return
     ops = operations(n)
     explored = explored if explored is not None else set()
@@ -339,6 +349,61 @@ def explore_hidden(ctx, rule, n):
                 queue.append(post)
 
 
+def explore_hardware(ctx, rule, n):
+    """Switches that mirror a selector on the HARDWARE: a plain Read handler refreshes each switch from a model the harness owns
+    (the documented reset_value idiom).  The hardware moves from selection i to selection j (or to none); the next message the
+    driver publishes - a state change, the answer to getProperties - must satisfy the rule."""
+    from indi import message as M
+    from indi.routing import Router
+    hw = {"sel": None}
+
+    def leaf_hook(ns, defs):
+        from indi.device import events
+        from indi.device.events import on
+        sources = [defs["g"].vectors["sw"].elements[f"s{i}"] for i in range(n)]
+
+        def poll(self, event):
+            event.element.reset_value("On" if hw["sel"] == event.element.name else "Off")
+        ns["poll"] = on(sources if len(sources) > 1 else sources[0], events.Read)(poll)
+
+    for i in range(n):
+        for j in [None] + list(range(n)):
+            if rule == "OneOfMany" and j is None:
+                continue
+            for route in ("state-change", "getProperties"):
+                spec = make_spec(rule, n, [N(i)] if rule == "AnyOfMany" else N(i))
+                router = Router()
+                hw["sel"] = N(i)
+                drv = D.build(spec, leaf_hook=leaf_hook)(router=router)
+                rec = devmon.RecClient()
+                router.register_client(rec)
+                vec = D.vector_of(drv, "g", "sw")
+                router.process_message(M.GetProperties(version="1.7"), sender=rec)        # settle on selection i
+                del rec.received[:]
+                hw["sel"] = N(j) if j is not None else None
+                case = {"mode": "hardware", "rule": rule, "n": n}
+                ctx.count("transitions")
+                ctx.count("hardware_selector_moves")
+                ctx.case_fast(("hardware", rule, n, i, j, route))
+                try:
+                    if route == "state-change":
+                        vec.state_ = "Busy"
+                    else:
+                        router.process_message(M.GetProperties(version="1.7", device="DEV"), sender=rec)
+                except Exception as e:
+                    ctx.violate(f"operation-raises:hardware-selector:{route}:{type(e).__name__}", f"{rule} n={n}: selector {i} -> {j}, {route}: {e!r}", case)
+                    continue
+                for m in rec.received:
+                    if type(m).__name__ not in ("SetSwitchVector", "DefSwitchVector"):
+                        continue
+                    ctx.count("published_updates_judged")
+                    on_names = [c.name for c in m.children if c.value == "On"]
+                    if rule in ("OneOfMany", "AtMostOne") and len(on_names) > 1:
+                        ctx.violate(f"published:more-than-one-on:{rule}:hardware-selector-moved:{route}",
+                                    f"{rule}, {n} switches refreshed by a Read handler: the selector moved from {N(i)} to {N(j) if j is not None else None}, "
+                                    f"the {type(m).__name__} published next shows {on_names} On", case)
+
+
 def initial_configs(rule, n):
     if rule == "AnyOfMany":
         return [tuple(bool(m >> i & 1) for i in range(n)) for m in range(1 << n)]
@@ -347,6 +412,12 @@ def initial_configs(rule, n):
 
 
 def run(ctx):
+    j = 300
+    for rule in RULES:
+        for n in (2, 3, 4):
+            j += 1
+            if ctx.mine(j):
+                explore_hardware(ctx, rule, n)
     j = 100
     for rule in RULES:
         for n in (2, 3) if not ctx.thorough else (2, 3, 4):
@@ -380,6 +451,10 @@ def run(ctx):
                 explore(ctx, rule, n, init, explored)
                 if ctx.enough():
                     return
+            if n <= 4:
+                for init in initial_configs(rule, n):
+                    if any(init):
+                        explore(ctx, rule, n, init, explored, via_element_defaults=True)      # the start state is what is judged
 
 
 def exhaustive(ctx):
@@ -387,6 +462,9 @@ def exhaustive(ctx):
 
 
 def replay(ctx, case):
+    if case.get("mode") == "hardware":
+        explore_hardware(ctx, case["rule"], case["n"])
+        return
     if case.get("mode") == "hidden":
         explore_hidden(ctx, case["rule"], case["n"])
         return
@@ -394,7 +472,7 @@ def replay(ctx, case):
     rule, n, init, node = case["rule"], case["n"], case["init"], case.get("node")
     _NAMES[0] = {1: NESTED_NAMES, 2: NESTED_NAMES_REV}.get(int(case.get("nested_names") or 0), PLAIN_NAMES)
     if node is None:
-        explore(ctx, rule, n, tuple(init))
+        explore(ctx, rule, n, tuple(init), via_element_defaults=bool(case.get("via_element_defaults")))
         return
     default_on = [N(i) for i, b in enumerate(init) if b]
     if rule != "AnyOfMany":
